@@ -526,7 +526,9 @@ pub fn gen_init(rng: &mut Rng, prof: &Profile, ctx: &Ctx, gs: &mut GenState, sec
         if rng.chance(2) { libs = vec![]; }
         if rng.chance(2) { libs = vec!["missing.so".to_string(), "libapp.so".to_string()]; }
     }
-    Op::Init { version, dirs, libs, yaml }
+    // the count a careless C caller passes: zero or negative with a perfectly good list
+    let count = if rng.chance(if second { 10 } else { 2 }) { Some(*rng.pick(&[0, -1, -7, i32::MIN])) } else { None };
+    Op::Init { version, dirs, libs, yaml, count }
 }
 
 /// Next operation of a history.
